@@ -286,7 +286,7 @@ def o_c13(tr):
                 if rpt > seq:
                     bad.append(("e2e:c13:retire-prior-to", f"{where}: retire_prior_to {rpt} > sequence number"))
                 if seq in issued:
-                    if issued[seq] != (cid, tok) and not (issued[seq][1] is None and issued[seq][0] == cid):
+                    if issued[seq] != (cid, tok):
                         bad.append(("e2e:c13:retransmit-differs", f"{where}: sequence number already used for cid {issued[seq][0]} / token {issued[seq][1]}, now {cid} / {tok}"))
                 else:
                     if seq != nxt:
